@@ -2324,8 +2324,8 @@ def provenance(m: SearchModel, e: ast.AST) -> set[str]:
     """Leaves the value of a node-collection expression is computed from, following the local definitions, mutations and loop
     bindings of the names it mentions: "filter:<p>" (identifier / parent flag of a module-filter parameter), "const",
     "subtree" (a get_all_submodules_of call), "graph" (any use of the graph), "param:<x>" (another parameter as a whole),
-    "call:<f>" (a call the view could not look into).  A set whose leaves are only filters and constants is computed from
-    *names alone*."""
+    "call:<f>" (a call the view could not look into), "derived" (a string operation - slicing, splitting, joining, formatting -
+    is involved).  A set whose leaves are only filters, constants and string operations is computed from *names alone*."""
     fn = m.fi.node
     params = set(m.fi.param_names)
     out: set[str] = set()
@@ -2390,6 +2390,8 @@ def provenance(m: SearchModel, e: ast.AST) -> set[str]:
             elif isinstance(x.func, ast.Attribute):
                 if x.func.attr not in _STR_METHODS:
                     out.add(f"call:{norm(x.func)}")
+                elif x.func.attr in (_NAME_METHODS | {"join", "format", "replace"}):
+                    out.add("derived")
                 visit(x.func.value)
             else:
                 visit(x.func)
@@ -2401,6 +2403,8 @@ def provenance(m: SearchModel, e: ast.AST) -> set[str]:
         if isinstance(x, ast.Lambda):
             visit(x.body)
             return
+        if isinstance(x, ast.JoinedStr) or (isinstance(x, ast.Subscript) and isinstance(x.slice, ast.Slice)) or (isinstance(x, ast.BinOp) and isinstance(x.op, (ast.Add, ast.Mod))):
+            out.add("derived")
         for c in ast.iter_child_nodes(x):
             if isinstance(c, (ast.expr, ast.comprehension, ast.keyword)):
                 visit(c)
@@ -2410,7 +2414,9 @@ def provenance(m: SearchModel, e: ast.AST) -> set[str]:
 
 
 def names_only(prov: set[str]) -> bool:
-    return bool(prov) and all(x == "const" or x.startswith("filter:") for x in prov) and any(x.startswith("filter:") for x in prov)
+    """Computed from the names of the module filters by string operations - and from nothing else (not the filters' own nodes
+    as they are, not anything looked up in the graph)."""
+    return "derived" in prov and all(x in ("const", "derived") or x.startswith("filter:") for x in prov) and any(x.startswith("filter:") for x in prov)
 
 
 # --------------------------------------------------------------------------- early exits
